@@ -2071,4 +2071,60 @@ theorem volumePositions_robust (rowCos colCos base : V3) (sp : Rat) (hsp : 0 < s
       exact (hmult e he).1
 
 
+/-! ## which planes are stored -/
+
+theorem mem_nonemptyIdx (l : List Bool) (k : Nat) :
+    k ∈ (l.zipIdx.filter (fun p => p.1)).map (fun p => p.2) ↔ l[k]? = some true := by
+  simp only [List.mem_map, List.mem_filter]
+  constructor
+  · rintro ⟨⟨b, i⟩, ⟨hm, hb⟩, rfl⟩
+    have := List.mem_zipIdx hm
+    simp only [Nat.zero_le, Nat.zero_add, Nat.sub_zero, true_and] at this
+    simp only at hb
+    rw [List.getElem?_eq_getElem this.1, ← this.2, hb]
+  · intro h
+    have hk : k < l.length := by
+      by_contra hc
+      rw [List.getElem?_eq_none (by omega)] at h; cases h
+    refine ⟨(true, k), ⟨List.mem_zipIdx_iff_getElem?.mpr (by simpa using h), rfl⟩, rfl⟩
+
+theorem keptPlanes_contains (l : List Bool) (om : Bool) (k : Nat) (h : l[k]? = some true) : k ∈ keptPlanes l om := by
+  unfold keptPlanes
+  simp only
+  split
+  · exact (mem_nonemptyIdx l k).mpr h
+  · have hk : k < l.length := by
+      by_contra hc
+      rw [List.getElem?_eq_none (by omega)] at h; cases h
+    exact List.mem_range.mpr hk
+
+theorem keptPlanes_bound (l : List Bool) (om : Bool) (k : Nat) (h : k ∈ keptPlanes l om) : k < l.length := by
+  unfold keptPlanes at h
+  simp only at h
+  split at h
+  · have := (mem_nonemptyIdx l k).mp h
+    by_contra hc
+    rw [List.getElem?_eq_none (by omega)] at this; cases this
+  · exact List.mem_range.mp h
+
+theorem keptPlanes_ne_nil (l : List Bool) (om : Bool) (hl : l ≠ []) : keptPlanes l om ≠ [] := by
+  unfold keptPlanes
+  simp only
+  split
+  · rename_i hc
+    simp only [Bool.and_eq_true, Bool.not_eq_true', List.isEmpty_eq_false_iff] at hc
+    exact hc.2
+  · intro h
+    have : l.length = 0 := by simpa using h
+    exact hl (List.length_eq_zero_iff.mp this)
+
+/-- a plane that is not stored when empty planes are omitted (and some plane is non-empty) is empty -/
+theorem not_kept_is_empty (l : List Bool) (k : Nat) (hk : k < l.length) (h : k ∉ keptPlanes l true) : l[k]? = some false := by
+  have : l[k]? ≠ some true := fun h' => h (keptPlanes_contains l true k h')
+  rw [List.getElem?_eq_getElem hk] at this ⊢
+  cases hb : l[k] with
+  | true => rw [hb] at this; exact absurd rfl this
+  | false => rfl
+
+
 end HdVerif.SegGeomLemmas
